@@ -11,17 +11,19 @@
    on the narrow fragment (Proofs/WideNarrow.v), so the narrow legs are unaffected. *)
 
 type pf = { fname : string; fnb : n list; bytes : n list; len : int; parsed : bool; frag : bool; tok : bool;
-            fi : fileinfo; so : socc list; strs : (n list * loc) list }
+            fi : fileinfo; so : socc list; strs : (n list * loc) list;
+            lends : (loc * n list list) list (* initialiser regions of the local statements, with their names *) }
 
 let dummy_fi = analyse (Block ([], None, zero_loc))
 
 let prep (name, bs) : pf =
   oracle_used := false;
   let base = { fname = name; fnb = bytes_of_string name; bytes = bs; len = List.length bs; parsed = false;
-               frag = false; tok = text_ok_wide bs; fi = dummy_fi; so = []; strs = [] } in
+               frag = false; tok = text_ok_wide bs; fi = dummy_fi; so = []; strs = []; lends = [] } in
   match parse_bytes gbk_oracle classify_tok bs with
   | Ok (PR (blk, [], [])) when not !oracle_used ->
-    { base with parsed = true; frag = in_wide blk; fi = analyse_wide blk; so = bind_file_wide blk; strs = strs_block blk }
+    { base with parsed = true; frag = in_wide blk; fi = analyse_wide blk; so = bind_file_wide blk; strs = strs_block blk;
+      lends = lends_block blk }
   | _ -> base
 
 let zi = int_of_z
@@ -67,7 +69,7 @@ let cursor (p : pf) ~(docend_empty : bool) line col : cur * bool (* doc end *) =
 
 let z1 line = z_of_int (line + 1)
 
-let tag_name = function CB1 -> "B1_own_initialiser" | CB2 -> "B2_for_bounds" | CB3 -> "B3_multi_local" | CB4 -> "B4_forward_decl" | CB5 -> "B5_for_step_order"
+let tag_name = function CB1 -> "B1_own_table_constructor" | CB2 -> "B2_for_bounds" | CB3 -> "B3_multi_local" | CB4 -> "B4_forward_decl" | CB5 -> "B5_for_step_order"
 let all_tags = [CB1; CB2; CB3; CB4; CB5]
 
 (* classes of the occurrence under the cursor *)
@@ -147,7 +149,14 @@ let eval_step (leg : string) (cx : ctx) (st : srv_step) : (string * string * str
       Some (empty, s, cls_s ((ignore docend; cl)))
     | CName s ->
       let (m, sp, cl) = k p s o false in
-      Some (m, sp, cls_s ((ignore docend; cl))) in
+      (* the first column of an identifier that starts right at the end of a `local` statement with initialisers lies
+         inside the statement's InitLoc (inclusive end column): a name of that statement is not found there *)
+      let adj = if after_local p.lends (snd s) (z1 line) (z_of_int col) then ["B1_adjacent_local_end"] else [] in
+      (* C12 relates the answers at several positions: the class counts when ANY occurrence of the name stands there *)
+      let adj = if adj = [] && leg = "c12.consist"
+                   && List.exists (fun (o : socc) -> o.s_name = snd s && after_local p.lends o.s_name o.s_loc.sl o.s_loc.sc) p.so
+                then ["B1_adjacent_local_end"] else adj in
+      Some (m, sp, cls_s ((ignore docend; cl @ adj))) in
   match st with
   | StDefine (i, line, col) ->
     pos_query "define" i line col (fun p (g, s) o empty ->
